@@ -402,7 +402,7 @@ func r12d(c *core.Ctx) {
 		for _, call := range core.Calls(mk) {
 			if cc, ok := call.(*ssa.Call); ok && (gb.Block().Dominates(cc.Block()) || cc.Block() == gb.Block()) && strings.HasSuffix(core.CallName(cc), wantFn[:len(wantFn)-2]) {
 				// receiver = maskAddr(<unmapped addr>, mask)
-				if mc, ok := cc.Call.Args[0].(*ssa.Call); ok && len(mk.AnonFuncs) > 0 && core.StaticCallee(mc) == mk.AnonFuncs[0] {
+				if mc, ok := cc.Call.Args[0].(*ssa.Call); ok && len(closuresOf(mk)) > 0 && core.StaticCallee(mc) == closuresOf(mk)[0] {
 					k, _ := core.ConstInt(mc.Call.Args[1])
 					fromUnmapped := false
 					for _, o := range core.Origins(mc.Call.Args[0], core.OriginOpts{}) {
@@ -427,8 +427,8 @@ func r12d(c *core.Ctx) {
 		c.Check(hole == "", "buffer-coverage:"+a.name, gb.Pos(), mk, "every byte of the un-zeroed pool buffer is written (no stale pool byte is sent to the upstream)", hole+" writes: "+strings.Join(desc, " "))
 	}
 	// maskAddr helper: Prefix(mask).Addr()
-	if len(mk.AnonFuncs) > 0 {
-		ma := mk.AnonFuncs[0]
+	if len(closuresOf(mk)) > 0 {
+		ma := closuresOf(mk)[0]
 		ok := false
 		for _, ret := range returnsOf(ma) {
 			e := core.Expr(ret.Results[0])
